@@ -82,10 +82,12 @@ deriving Repr, DecidableEq
 def reservedOK (long : Bool) (first : UInt8) : Bool :=
   if long then first &&& 0x0c == 0 else first &&& 0x18 == 0
 
-/-- `unpackLongHeaderPacket` / `unpackShortHeaderPacket` for a packet whose header up to the packet number
-    has length `pnOffset`; `largest` is the opener's `highestRcvdPN`.  Invalid reserved bits are reported
-    only after a successful decryption (timing side channel), as in the Go code. -/
-def unprotect (k : Keys) (data : Bytes) (pnOffset : Nat) (largest : Int) : Except Err Opened :=
+/-- `unpackLongHeaderPacket` / `unpackShortHeaderPacket` up to and including the AEAD `Open` call, for a
+    packet whose header up to the packet number has length `pnOffset`; `largest` is the opener's
+    `highestRcvdPN`.  Also returns whether the reserved bits of the unprotected first byte are valid:
+    the Go code reports invalid reserved bits only AFTER a successful decryption (timing side channel),
+    so the opener's state (`highestRcvdPN`, key phase) has already advanced then. -/
+def unprotectCore (k : Keys) (data : Bytes) (pnOffset : Nat) (largest : Int) : Except Err (Opened × Bool) :=
   if data.length < pnOffset + 4 + 16 then .error .tooSmall
   else
     let m := k.hp (sample data pnOffset)
@@ -97,6 +99,13 @@ def unprotect (k : Keys) (data : Bytes) (pnOffset : Nat) (largest : Int) : Excep
     let pn := decodePN pnLen largest trunc
     match k.aead.dec (nonce k.iv pn.toNat) hdr (data.drop (pnOffset + pnLen)) with
     | none => .error .decrypt
-    | some msg => if reservedOK k.long first then .ok { hdr := hdr, pn := pn, pnLen := pnLen, payload := msg } else .error .reserved
+    | some msg => .ok ({ hdr := hdr, pn := pn, pnLen := pnLen, payload := msg }, reservedOK k.long first)
+
+/-- what the unpacker returns to the connection -/
+def unprotect (k : Keys) (data : Bytes) (pnOffset : Nat) (largest : Int) : Except Err Opened :=
+  match unprotectCore k data pnOffset largest with
+  | .error e => .error e
+  | .ok (o, true) => .ok o
+  | .ok (_, false) => .error .reserved
 
 end Uquic.Model.Packet
